@@ -264,7 +264,7 @@ def run_tls_schedule(case, r):
         ca = ("127.0.0.1", 41000 + j)
         if outcome:
             cx = srv.cxes.get(ca)
-            if cx is not None and cx.cs is b:
+            if cx is not None and cx.cs is b and not getattr(cx, "aborted", False):
                 r.fail("C10/failed-handshake-still-pending", "connection %d: handshake failed with %s but the server still "
                        "holds it among its pending handshakes" % (j, outcome))
                 return
